@@ -2,6 +2,7 @@ package simdrv
 
 import (
 	"fmt"
+
 	"go/ast"
 	"go/token"
 	"go/types"
@@ -10,6 +11,7 @@ import (
 	"runtime"
 	"sort"
 	"strings"
+	"verif.local/gcsim/simrt"
 
 	"golang.org/x/tools/go/packages"
 )
@@ -111,12 +113,28 @@ func LoadCorpus(repo string, names []string, extra map[string]string) (*Corpus, 
 		}
 		pkgs = append(pkgs, ps...)
 	}
-	if len(ext) > 0 {
-		// hand-written corpus: packages of the simulator's own module
-		cfg := &packages.Config{Mode: loadMode, Tests: false, Fset: c.Fset, Dir: filepath.Dir(filepath.Dir(ext[0]))}
-		ps, err := packages.Load(cfg, ext...)
+	// hand-written corpus: packages of the simulator's own modules, loaded per module root
+	byRoot := map[string][]string{}
+	for _, d := range ext {
+		root := d
+		for root != "/" {
+			if _, err := os.Stat(filepath.Join(root, "go.mod")); err == nil {
+				break
+			}
+			root = filepath.Dir(root)
+		}
+		byRoot[root] = append(byRoot[root], d)
+	}
+	var roots []string
+	for r := range byRoot {
+		roots = append(roots, r)
+	}
+	sort.Strings(roots)
+	for _, root := range roots {
+		cfg := &packages.Config{Mode: loadMode, Tests: false, Fset: c.Fset, Dir: root}
+		ps, err := packages.Load(cfg, byRoot[root]...)
 		if err != nil {
-			return nil, fmt.Errorf("corpus load (hand-written): %w", err)
+			return nil, fmt.Errorf("corpus load (hand-written, %s): %w", root, err)
 		}
 		pkgs = append(pkgs, ps...)
 	}
@@ -157,6 +175,45 @@ func (cp *CorpusPkg) View(files []int) *packages.Package {
 	v.Syntax = nil
 	for _, i := range files {
 		v.Syntax = append(v.Syntax, cp.Files[i])
+	}
+	return &v
+}
+
+// PermutedFile returns a shallow copy of file i whose non-import declarations
+// are permuted by seed (the identity for seed 0). The permutation depends only
+// on (seed, i, number of declarations), so independently loaded copies of the
+// package get the same one.
+func (cp *CorpusPkg) PermutedFile(i int, seed uint64) *ast.File {
+	f := cp.Files[i]
+	if seed == 0 {
+		return f
+	}
+	var slots []int
+	for k, d := range f.Decls {
+		if gd, ok := d.(*ast.GenDecl); ok && gd.Tok == token.IMPORT {
+			continue
+		}
+		slots = append(slots, k)
+	}
+	if len(slots) < 2 {
+		return f
+	}
+	r := simrt.NewRand(seed, fmt.Sprintf("decl/%d/%d", i, len(slots)))
+	perm := r.Perm(len(slots))
+	g := *f
+	g.Decls = append([]ast.Decl(nil), f.Decls...)
+	for k, s := range slots {
+		g.Decls[s] = f.Decls[slots[perm[k]]]
+	}
+	return &g
+}
+
+// ViewPermuted is View with permuted declaration order.
+func (cp *CorpusPkg) ViewPermuted(files []int, seed uint64) *packages.Package {
+	v := *cp.Pkg
+	v.Syntax = nil
+	for _, i := range files {
+		v.Syntax = append(v.Syntax, cp.PermutedFile(i, seed))
 	}
 	return &v
 }
